@@ -493,3 +493,37 @@ Print Assumptions c10_partial_redirect_history.
 Print Assumptions c10_partial_redirect_witness.
 Print Assumptions c10_refusal_wire_nonvacuous.
 Print Assumptions c10_scl_wire_nonvacuous.
+
+(* ================================================================== where the code records close reasons (translated from the source) *)
+(** Three of the five places where src/client/flow.rs records a close reason are translated on every run by tools/rs2coq2.py
+    (theories/Gen2.v) and proved equal to the model (proofs/Gen2_equiv_flow.v): [Flow::new] (HTTP/1.0 and the request's
+    Connection: close; also the should_send_body / await_100_continue flags), [Flow<RecvResponse>::try_response] (the server's
+    Connection: close, the status and the last Location; a delayed 100 is skipped and records nothing) and
+    [Flow<RecvResponse>::proceed] (close-delimited body, only when a body follows; exported by C09).  The fourth, the refusal while
+    awaiting 100, is [gen_try_read_100] (exported by C11).  Inputs the functions take from the http crate (version test, header
+    tests, parsed response) are parameters.  Trusted: the translator. *)
+From Hoot Require Import GenLib Gen2.
+From Hoot.proofs Require Import Gen2_equiv_flow.
+Theorem c10_code_new_table : forall h10 cc nb ex,
+  gen_flow_new h10 cc nb ex (Ok tt) = Ok ((if h10 then [Http10] else []) ++ (if cc then [ClientConnectionClose] else []), nb, ex).
+Proof. exact gen_flow_new_table. Qed.
+Theorem c10_code_new : forall r f,
+  flow_new r = Ok f ->
+  gen_flow_new (is_v10 (rq_version r)) (headers_has (rq_headers r) (s2b "connection") (s2b "close"))
+               (need_request_body (rq_method r)) (headers_has (rq_headers r) (s2b "expect") (s2b "100-continue")) (Ok tt)
+  = Ok (i_reasons f, i_should_send_body f, i_await_100 f).
+Proof. exact gen_flow_new_ok. Qed.
+Theorem c10_code_try_response : forall f input c c' got,
+  as_recv_response f = Ok c ->
+  call_try_response c input = Ok (c', got) ->
+  match recv_try_response f input with
+  | Ok (f', used, orsp) =>
+      gen_try_response (i_reasons f) (i_await_100 f) (i_status f) (i_location f) (Ok got)
+      = Ok (i_reasons f', i_await_100 f', i_status f', i_location f', (used, orsp))
+  | Err e => gen_try_response (i_reasons f) (i_await_100 f) (i_status f) (i_location f) (Ok got) = Err e
+  | Panic _ => exists s, gen_try_response (i_reasons f) (i_await_100 f) (i_status f) (i_location f) (Ok got) = Panic s
+  end.
+Proof. exact gen_try_response_ok. Qed.
+Print Assumptions c10_code_new_table.
+Print Assumptions c10_code_new.
+Print Assumptions c10_code_try_response.
